@@ -29,6 +29,7 @@ type GenParams struct {
 	TimeMode    int // 0 = drawn; 1 tiny, 2 ascending, 3 descending, 4 uniform, 5 extremes-heavy
 	SmallIDs    bool
 	PythonIDs   bool // ids 1,2,3,... in definition order and no re-writes (what Python's Writer assigns)
+	ManyChannels int // this many extra channels (ids 100, 101, ...) are defined up front; messages use them too
 }
 
 func Str(t *rapid.T, label string, allowLong bool) string {
@@ -250,6 +251,12 @@ func GenWorkload(t *rapid.T, p GenParams) Workload {
 	for len(channels) < p.MinChannels {
 		addChannel(&Channel{Topic: topicPool[len(channels)%len(topicPool)]}, false, 0)
 	}
+	var extra []*Channel
+	for i := 0; i < p.ManyChannels; i++ {
+		c := &Channel{ID: uint16(100 + i), Topic: "/many/" + string(rune('a'+i%26)) + string(rune('a'+i/26))}
+		extra = append(extra, c)
+		w.Ops = append(w.Ops, Op{C: c})
+	}
 	for _, r := range raws {
 		switch r.Kind {
 		case 0:
@@ -283,6 +290,9 @@ func GenWorkload(t *rapid.T, p GenParams) Workload {
 			}
 			m := r.M
 			m.ChannelID = channels[r.Which%len(channels)].ID
+			if len(extra) > 0 && r.TimeRaw%3 != 0 {
+				m.ChannelID = extra[int(r.TimeRaw>>16)%len(extra)].ID
+			}
 			var v uint64
 			switch mode {
 			case 1:
